@@ -78,3 +78,27 @@ async fn server_insert_on_a_client_only_session_with_allow() {
     let s = Session::new(&store, &cfg, Some(IncomingSession::from_parts(id, st)));
     assert_eq!(s.get::<u8>("a").await.unwrap(), Some(1));
 }
+
+#[tokio::test]
+async fn never_skip_is_honoured_after_cycle_id() {
+    // default config: NeverSkip + Reject
+    let store = SessionStore::new(InMemorySessionStore::new());
+    let cfg = SessionConfig::new();
+    let mut s = Session::new(&store, &cfg, None);
+    s.client_mut().insert("c", 1u8).unwrap();
+    s.insert("a", 1u8).await.unwrap();
+    let c = s.finalize().await.unwrap().unwrap();
+    let (id, st) = parse(&c);
+    // request 2: delete the record, sync, cycle the id
+    let mut s = Session::new(&store, &cfg, Some(IncomingSession::from_parts(id, st)));
+    s.delete();
+    s.sync().await.unwrap();
+    s.cycle_id();
+    let c = s.finalize().await.unwrap().unwrap();
+    let (id, st) = parse(&c);
+    // request 3: the client-side value must still be there after touching the server state
+    let s = Session::new(&store, &cfg, Some(IncomingSession::from_parts(id, st)));
+    assert_eq!(s.get::<u8>("a").await.unwrap(), None);
+    assert!(!s.is_invalidated(), "the session was invalidated: no record was created under the new id");
+    assert_eq!(s.client().get::<u8>("c").unwrap(), Some(1));
+}
